@@ -20,6 +20,7 @@ type Checker struct {
 	workers   int
 	smtlog    string
 	extra     map[string]string
+	witnesses int // completed paths per instance whose model is replayed natively (translator validation)
 
 	mu     sync.Mutex
 	cond   *sync.Cond
@@ -64,6 +65,8 @@ type instState struct {
 	qunsat    int
 	qunknown  int
 	oblUnsat  int
+	busy      time.Duration // accumulated execution time of the instance's paths over all workers
+	wits      []*foundViol  // models of completed (violation-free) paths, replayed natively: the native run must pass too
 	sinks     int // secrecy sinks checked (C20)
 	oblSat    int
 	merges    int
@@ -139,7 +142,9 @@ func (ck *Checker) worker(w int) {
 			st.start = time.Now()
 		}
 		skip := st.stopped != ""
-		if !skip && time.Since(st.start) > time.Duration(st.in.TimeoutS)*time.Second {
+		// the deadline is a budget of work, not of wall-clock time: TimeoutS seconds on all workers.  (Instances of a
+		// property share the workers; with a wall-clock deadline an expensive sibling made cheap instances "time out".)
+		if !skip && st.busy > time.Duration(st.in.TimeoutS)*time.Second*time.Duration(ck.workers) {
 			st.stopped = "deadline"
 			skip = true
 		}
@@ -160,7 +165,11 @@ func (ck *Checker) worker(w int) {
 				}
 				solvers[key] = sol
 			}
+			t0 := time.Now()
 			newWork = ck.runPath(st, sol, it.prefix)
+			st.mu.Lock()
+			st.busy += time.Since(t0)
+			st.mu.Unlock()
 		}
 		st.mu.Lock()
 		st.pending += len(newWork) - 1
@@ -211,6 +220,29 @@ func (ck *Checker) runPath(st *instState, sol *Solver, prefix []Decision) (newWo
 			}
 		}()
 		r.callFn(nil, st.fn, nil, lbl("entry"))
+		// translator validation: the model of a completed, violation-free path is kept for a native run
+		if len(r.viol) == 0 && in.Replay != "none" && in.NoWitness == "" && ck.witnesses > 0 {
+			st.mu.Lock()
+			want := len(st.wits) < ck.witnesses
+			st.mu.Unlock()
+			if want && len(r.secretList) > 0 {
+				// secrets take the high-entropy marker value, so that the native search for them cannot hit by coincidence
+				mark := True
+				for i, s := range r.secretList {
+					mark = And(mark, Eq(s, BVu(markerByte(i), 8)))
+				}
+				r.sol.Push()
+				r.sol.Assert(mark)
+			}
+			if want && r.sol.Check() == "sat" {
+				w := &foundViol{Violation: r.snapshot("witness", lbl("completed path"), "completed path")}
+				st.mu.Lock()
+				if len(st.wits) < ck.witnesses {
+					st.wits = append(st.wits, w)
+				}
+				st.mu.Unlock()
+			}
+		}
 		return "done", ""
 	}()
 	if kind == "solver" || sol.dead {
